@@ -1046,7 +1046,8 @@ class Series(ContainerOperand):
                 limit=limit,
                 slice_condition=slice_condition # isna True in region
                 ):
-            assigned[target_slice] = value
+            # NOTE: fill the (view of the) slice: assigning would read a tuple element as a sequence
+            assigned[target_slice].fill(value)
 
         assigned.flags.writeable = False
         return assigned
